@@ -253,9 +253,9 @@ Theorem C06_wrong_length_rejected : forall (len dim n : nat), (1 <= len)%nat -> 
 Proof. exact dispatch_wrong_length. Qed.
 Print Assumptions C06_wrong_length_rejected.
 
-(* ================================================================ ✱ where the code as it is departs
-   (a) FULL STATEMENT (documented table of SMPose.__mul__: "1 x (N,) -> (N,)"): an N-vector times one pose has shape (N,).
-       The code returns the column (N,1) for every vector form. *)
+(* ================================================================ ✱ documentation inconsistency (the code and the pinned tests agree)
+   STATEMENT OF THE DOCSTRING TABLE of SMPose.__mul__ ("1 x (N,) -> (N,)"): an N-vector times one pose has shape (N,).
+   The code returns the column (N,1) for every vector form, and the repository's tests pin that shape. *)
 Theorem C06_vector_result_shape_refuted : exists f r, isvector f 3 = true /\ dispatch 1 3 f = inr r /\ shape r <> [3%nat].
 Proof. exists (FArr1 3), {| shape := [3; 1]; cols := [(0, 0)] |}%nat. repeat split. discriminate. Qed.
 Print Assumptions C06_vector_result_shape_refuted.
@@ -265,28 +265,71 @@ Theorem C06_vector_result_shape_partial : forall (dim : nat) (f : form), isvecto
 Proof. intros dim f H. unfold dispatch. rewrite H. simpl. eexists. repeat split. Qed.
 Print Assumptions C06_vector_result_shape_partial.
 
-(* (b) FULL STATEMENT: every combination either yields a value or the documented ValueError.
-       A multi-valued pose times a d x N array never yields a value, and for N = len(pose) the branch written for it
-       (pose i applied to column i) raises AttributeError instead. *)
-Theorem C06_multi_array_refuted : exists len dim N, (2 <= len)%nat /\ dispatch len dim (FArr2 dim N) = inl AttributeError.
-Proof. exists 2%nat, 3%nat, 2%nat. split; [lia|reflexivity]. Qed.
-Print Assumptions C06_multi_array_refuted.
-
-Theorem C06_multi_array_partial : forall len dim N : nat, (2 <= dim)%nat -> (2 <= len)%nat -> (2 <= N)%nat -> len <> N ->
-  dispatch len dim (FArr2 dim N) = inl ValueError.
-Proof.
-  intros len dim N Hd Hl HN Hne. rewrite (dispatch_multi_array len dim N Hd Hl HN).
-  replace (len =? N)%nat with false by (symmetry; apply Nat.eqb_neq; exact Hne). reflexivity.
-Qed.
-Print Assumptions C06_multi_array_partial.
-
-Theorem C06_multi_array_as_is : forall len dim N : nat, (2 <= dim)%nat -> (2 <= len)%nat -> (2 <= N)%nat ->
-  dispatch len dim (FArr2 dim N) = inl (if (len =? N)%nat then AttributeError else ValueError).
+(* ================================================================ multi-valued pose x d x N array (N >= 2)
+   (since fix 86fcbcb; before it the N = len branch raised AttributeError and this was a _refuted/_partial pair)
+   pose i is applied to column i when N = len(pose); every other N is rejected with the documented ValueError *)
+Theorem C06_multi_array : forall len dim N : nat, (2 <= dim)%nat -> (2 <= len)%nat -> (2 <= N)%nat ->
+  dispatch len dim (FArr2 dim N) =
+    if (len =? N)%nat then inr {| shape := [dim; len]; cols := map (fun i => (i, i)) (seq 0 len) |} else inl ValueError.
 Proof. exact dispatch_multi_array. Qed.
-Print Assumptions C06_multi_array_as_is.
+Print Assumptions C06_multi_array.
+
+(* tie: the traced two-valued pose x (d x 2) array is the model with the traced one-point kernel *)
+Theorem C06_multi_array_is_model : forall (X0 X1 : M44 R) (Y0 Y1 : M33 R) (Z0 Z1 : M33 R) (W0 W1 : M22 R) (p0 p1 : V3 R) (u0 u1 : V2 R),
+  hom4 X0 -> hom4 X1 -> hom3 Z0 -> hom3 Z1 ->
+  pose_mul kSE3 X0 z3 [X0; X1] [p0; p1] (FArr2 3 2) 3 = inr [tr_SE3_ma2_c0 Rops X0 X1 p0 p1; tr_SE3_ma2_c1 Rops X0 X1 p0 p1] /\
+  pose_mul kSO3 Y0 z3 [Y0; Y1] [p0; p1] (FArr2 3 2) 3 = inr [tr_SO3_ma2_c0 Rops Y0 Y1 p0 p1; tr_SO3_ma2_c1 Rops Y0 Y1 p0 p1] /\
+  pose_mul kSE2 Z0 z2 [Z0; Z1] [u0; u1] (FArr2 2 2) 2 = inr [tr_SE2_ma2_c0 Rops Z0 Z1 u0 u1; tr_SE2_ma2_c1 Rops Z0 Z1 u0 u1] /\
+  pose_mul kSO2 W0 z2 [W0; W1] [u0; u1] (FArr2 2 2) 2 = inr [tr_SO2_ma2_c0 Rops W0 W1 u0 u1; tr_SO2_ma2_c1 Rops W0 W1 u0 u1].
+Proof.
+  intros X0 X1 Y0 Y1 Z0 Z1 W0 W1 p0 p1 u0 u1 H0 H1 H2 H3. unfold kSE3, kSO3, kSE2, kSO2, pose_mul. simpl length.
+  vm_compute dispatch. cbn [cols map seq fst snd nth].
+  repeat split; list_eq ltac:(idtac); try (revert H0 H1 H2 H3; gen_field); gen_ring.
+Qed.
+Print Assumptions C06_multi_array_is_model.
+
+(* every length >= 2: column i of X * P is X[i] applied to column i, = R_i p_i + t_i *)
+Theorem C06_multi_array_SE3 : forall (poses : list (M44 R)) (pts : list (V3 R)) (dX : M44 R),
+  (2 <= length poses)%nat -> length pts = length poses -> (forall X, In X poses -> hom4 X) ->
+  exists l, pose_mul kSE3 dX z3 poses pts (FArr2 3 (length pts)) 3 = inr l /\ length l = length poses /\
+    forall i, (i < length poses)%nat -> nth i l z3 = act3 (nth i poses dX) (nth i pts z3).
+Proof.
+  intros poses pts dX HL HE Hh. destruct (pose_mul_elementwise kSE3 dX z3 poses pts 3 ltac:(lia) HL HE) as (l & E & Hl & Hc).
+  exists l. split; [exact E|]. split; [exact Hl|]. intros i Hi. rewrite (Hc i Hi).
+  apply kSE3_point. apply Hh. apply nth_In; exact Hi.
+Qed.
+Print Assumptions C06_multi_array_SE3.
+
+Theorem C06_multi_array_SE2 : forall (poses : list (M33 R)) (pts : list (V2 R)) (dX : M33 R),
+  (2 <= length poses)%nat -> length pts = length poses -> (forall X, In X poses -> hom3 X) ->
+  exists l, pose_mul kSE2 dX z2 poses pts (FArr2 2 (length pts)) 2 = inr l /\ length l = length poses /\
+    forall i, (i < length poses)%nat -> nth i l z2 = act2 (nth i poses dX) (nth i pts z2).
+Proof.
+  intros poses pts dX HL HE Hh. destruct (pose_mul_elementwise kSE2 dX z2 poses pts 2 ltac:(lia) HL HE) as (l & E & Hl & Hc).
+  exists l. split; [exact E|]. split; [exact Hl|]. intros i Hi. rewrite (Hc i Hi).
+  apply kSE2_point. apply Hh. apply nth_In; exact Hi.
+Qed.
+Print Assumptions C06_multi_array_SE2.
+
+Theorem C06_multi_array_SO : forall (R3 : list (M33 R)) (R2 : list (M22 R)) (P3 : list (V3 R)) (P2 : list (V2 R)) d3 d2,
+  (2 <= length R3)%nat -> (2 <= length R2)%nat -> length P3 = length R3 -> length P2 = length R2 ->
+  (exists l, pose_mul kSO3 d3 z3 R3 P3 (FArr2 3 (length P3)) 3 = inr l /\ length l = length R3 /\
+     forall i, (i < length R3)%nat -> nth i l z3 = mv33 Rops (nth i R3 d3) (nth i P3 z3)) /\
+  (exists l, pose_mul kSO2 d2 z2 R2 P2 (FArr2 2 (length P2)) 2 = inr l /\ length l = length R2 /\
+     forall i, (i < length R2)%nat -> nth i l z2 = mv22 Rops (nth i R2 d2) (nth i P2 z2)).
+Proof.
+  intros R3 R2 P3 P2 d3 d2 H3 H2 E3 E2. split.
+  - destruct (pose_mul_elementwise kSO3 d3 z3 R3 P3 3 ltac:(lia) H3 E3) as (l & E & Hl & Hc).
+    exists l. split; [exact E|]. split; [exact Hl|]. intros i Hi. rewrite (Hc i Hi). apply kSO3_point.
+  - destruct (pose_mul_elementwise kSO2 d2 z2 R2 P2 2 ltac:(lia) H2 E2) as (l & E & Hl & Hc).
+    exists l. split; [exact E|]. split; [exact Hl|]. intros i Hi. rewrite (Hc i Hi). apply kSO2_point.
+Qed.
+Print Assumptions C06_multi_array_SO.
 
 (* non-vacuity *)
 Example C06_dispatch_nonvacuous : hom4 ((1, 0, 0, 2), (0, 1, 0, 3), (0, 0, 1, 4), (0, 0, 0, 1)) /\
   pose_mul (fun (X : nat) (p : nat) => (X + p)%nat) 0%nat 0%nat [10; 20; 30]%nat [7%nat] (FTuple 3) 3 = inr [17; 27; 37]%nat /\
-  pose_mul (fun (X : nat) (p : nat) => (X + p)%nat) 0%nat 0%nat [10%nat] [1; 2; 3; 4; 5]%nat (FArr2 3 5) 3 = inr [11; 12; 13; 14; 15]%nat.
+  pose_mul (fun (X : nat) (p : nat) => (X + p)%nat) 0%nat 0%nat [10%nat] [1; 2; 3; 4; 5]%nat (FArr2 3 5) 3 = inr [11; 12; 13; 14; 15]%nat /\
+  pose_mul (fun (X : nat) (p : nat) => (X + p)%nat) 0%nat 0%nat [10; 20; 30; 40]%nat [1; 2; 3; 4]%nat (FArr2 3 4) 3 = inr [11; 22; 33; 44]%nat /\
+  dispatch 4 3 (FArr2 3 5) = inl ValueError.
 Proof. repeat split. Qed.
